@@ -360,7 +360,21 @@ func (e *Engine) unop(st *State, x *ssa.UnOp, a Value) Value {
 		if p.Obj == 0 {
 			e.goPanic(st, "runtime error: invalid memory address or nil pointer dereference")
 		}
-		return st.Load(p)
+		for {
+			if v, ok := st.tryLoad(p); ok {
+				return v
+			}
+			// fork over the values of the first symbolic index
+			np := PtrV{Obj: p.Obj, Path: append([]PathElem(nil), p.Path...)}
+			for i, pe := range np.Path {
+				if pe.Sym != nil {
+					v := e.concretize(st, pe.Sym, "index into non-mergeable cells")
+					np.Path[i] = PathElem{I: int(v)}
+					break
+				}
+			}
+			p = np
+		}
 	case token.NOT:
 		return Not(a.(*Term))
 	case token.SUB:
@@ -731,7 +745,7 @@ func (e *Engine) execNext(st *State, fr *Frame, x *ssa.Next) {
 	}
 	n := len(it.Keys) - it.Pos
 	if n <= 0 {
-		fr.set(x, TupleV{FalseT, zeroValue(tup.At(1).Type()), zeroValue(tup.At(2).Type())})
+		fr.set(x, TupleV{FalseT, zeroOrNil(tup.At(1).Type()), zeroOrNil(tup.At(2).Type())})
 		return
 	}
 	// iteration order is nondeterministic
@@ -752,14 +766,14 @@ func (e *Engine) execNext(st *State, fr *Frame, x *ssa.Next) {
 				pick = n - 1
 			}
 		case 2:
-			st.Counters["maporder"]++
-			name := fmt.Sprintf("vp!order%d", st.Counters["maporder"])
+			// the counter is advanced only after the last decision of this
+			// instruction: a forked clone re-executes it from the start
+			name := fmt.Sprintf("vp!order%d", st.Counters["maporder"]+1)
 			c := Var(name, BV(8))
 			e.declInput(name, c, "order")
-			if !e.decide(st, ULt(c, BVC(8, uint64(n)))) {
-				panic(pathDead{"order choice out of range"})
-			}
+			e.assumeChecked(st, ULt(c, BVC(8, uint64(n))))
 			pick = int(e.concretize(st, c, "map order"))
+			st.Counters["maporder"]++
 		}
 	}
 	wit := st.wobj(iv.Obj).It
@@ -853,4 +867,11 @@ func (e *Engine) decodeRune(st *State, s StrV, i int) (*Term, int) {
 		return BVOr(BVOr(bits(0, 0x07, 18), bits(1, 0x3F, 12)), BVOr(bits(2, 0x3F, 6), bits(3, 0x3F, 0))), 4
 	}
 	return rerr, 1
+}
+
+func zeroOrNil(t types.Type) Value {
+	if b, ok := t.(*types.Basic); ok && b.Kind() == types.Invalid {
+		return nil
+	}
+	return zeroValue(t)
 }
